@@ -16,6 +16,12 @@ for item in $list; do
   if ! git -C $wt revert -n $c >/dev/null 2>&1; then echo "$c $p revert-conflict"; git -C /repo worktree remove --force $wt; continue; fi
   out=$(VERIF_REPO=$wt ./check run $p --tier quick 2>&1); rc=$?
   echo "$c $p rc=$rc $(echo "$out" | grep -E '^(VIOLATION|OK|BROKEN)' | head -1 | cut -c1-150)"
+  # SAVE=1: keep the (shrunk) failing case as a regression input of the property's replay tier (corpus/<ID>/fixed-<commit>.case),
+  # provided it passes on the unchanged tree
+  if [ -n "$SAVE" ] && [ $rc = 1 ]; then
+    rp=$(echo "$out" | grep -E '^VIOLATION' | head -1 | sed 's/.*replay=//')
+    if [ -f "$rp" ] && [ ! -f corpus/$p/fixed-$c.case ] && ./check replay $p "$rp" >/dev/null 2>&1; then mkdir -p corpus/$p; grep -v '^#' "$rp" > corpus/$p/fixed-$c.case; echo "   saved corpus/$p/fixed-$c.case"; fi
+  fi
   git -C /repo worktree remove --force $wt
 done
 git -C /repo worktree prune
